@@ -153,9 +153,16 @@ SUPP = '\U0001F600'
 STRINGS = ['', 'a', 'abc', 'hello world', 'aXbXc', 'é€z', 'a' + SUPP + 'b', SUPP + SUPP + '\U00010000', 'ab' + SUPP + 'é￿z', 'aaa', 'abab']
 
 
+# nulls that come out of a failed evaluation carry a trace message inside the implementation (Value::Null(Some(..))); FEEL knows one null:
+# every list function must treat them like the literal null (seeded change C08_c: distinct values compared the messages)
+VNULL_T1 = V('floor(true)', 'VNull', 'null')
+VNULL_T2 = V('abs("a")', 'VNull', 'null')
+
+
 def list_pool():
     one, two, three, onez, a_, b_ = num('1'), num('2'), num('3'), num('1.0'), st('a'), st('b')
     return [
+        lst(VNULL, VNULL_T1), lst(VNULL_T1, one, VNULL_T2, VNULL), lst(lst(VNULL), lst(VNULL_T1), lst(VNULL_T2)), lst(cx(a=VNULL), cx(a=VNULL_T1)),
         lst(), lst(one), lst(one, two, three), lst(one, onez, two, one), lst(VNULL), lst(one, VNULL, two), lst(lst(one), lst(one, two), one),
         lst(lst(), lst(lst(one)), VNULL, lst(VNULL)), lst(a_, b_, a_), lst(one, a_, VTRUE, VNULL, one),
         lst(one, two, three, num('4'), num('5'), num('6'), num('7'), num('8')), lst(num('3'), num('1'), num('2'), num('3.0'), num('1'), num('2.00'), num('2'), num('3')),
@@ -168,7 +175,7 @@ ELEMENTS = None
 
 def element_pool():
     one, onez = num('1'), num('1.0')
-    return [one, onez, num('2'), num('9'), st('a'), st(''), VNULL, VTRUE, lst(one), lst(), cx(a=one), date(2021, 1, 1)]
+    return [one, onez, num('2'), num('9'), st('a'), st(''), VNULL, VTRUE, lst(one), lst(), cx(a=one), date(2021, 1, 1), VNULL_T1, lst(VNULL_T2)]
 
 
 def positions(n):
